@@ -96,7 +96,7 @@ def strategy(tier):
     n = 12 if not big else 25
 
     def mk(ser):
-        return st.fixed_dictionaries({
+        return S.fdict({
             'aio': st.booleans(), 'serializer': st.just(ser),
             'off_ns': st.lists(st.sampled_from([0, 1, 2, 3]), max_size=3,
                                unique=True),
